@@ -23,6 +23,7 @@ ANCHORS = [
 
 def run(chk):
     repo = chk.repo
+    cm.schema(chk, repo, "C06")
     v = FV(repo, "field.Field.integrate")
     chk.rule("C06.D1", "integrate() == sum(array over all spatial axes) * prod(cell); cumulative without a direction and "
                        "non-string directions are refused")
